@@ -13,6 +13,7 @@ import (
 	"fmt"
 	"os"
 	"path/filepath"
+	"runtime/debug"
 	"sort"
 	"strings"
 	"testing"
@@ -120,7 +121,17 @@ func (n *node) close() {
 // calls the real syncDB; an error or panic is an observation, never a timeout.
 func (n *node) sync() string {
 	var err error
-	panicked, msg := vhlib.Try(func() { err = n.idx.VerifSync(context.Background()) })
+	panicked, msg := vhlib.Try(func() {
+		if os.Getenv("VH_DEBUG") != "" {
+			defer func() {
+				if r := recover(); r != nil {
+					fmt.Fprintf(os.Stderr, "PANIC in syncDB: %v\n%s\n", r, debug.Stack())
+					panic(r)
+				}
+			}()
+		}
+		err = n.idx.VerifSync(context.Background())
+	})
 	switch {
 	case panicked:
 		return "panic:" + clip(msg) + " comp=" + component(msg)
